@@ -97,7 +97,7 @@ func (tw *TimerWheel[K, V]) fspec_expire_remove(entry *Entry[K, V], reason Remov
 func (tw *TimerWheel[K, V]) spec_expire(index int, prevTicks int64, delta int64, remove func(entry *Entry[K, V], reason RemoveReason)) {
 	flag("wheel_unchecked_links")
 	requires("wf", sp_wfWheel(tw))
-	requires("level", index >= 0 && index < 5 && delta >= 1 && prevTicks >= 0 && prevTicks <= 1<<40)
+	requires("level", index >= 0 && index < 5 && delta >= 1 && delta <= 1<<40 && prevTicks >= 0 && prevTicks <= 1<<40)
 }
 
 // the slots visited: ticks prevTicks .. prevTicks+steps-1, in particular the tick that has just been reached
